@@ -93,7 +93,8 @@ def collect(pid, tier, seed, d):
         fails2, _, _ = judge_histories(d, "TPPool", rp, pid, shards=2, heap="3g")
         again = {f[0] for f in fails2 if f[1] == pid}
         hist2 = os.path.join(d, "pool_reexec.ndjson")
-        run_harness(binp, ["pool", "--out", hist2, "--seed", str(seed + 1), "-x", "replay=" + rp])
+        run_harness(binp, ["pool", "--out", hist2, "--seed", str(seed + 1), "-x", "replay=" + rp],
+                    env={"GORACE": "log_path=%s halt_on_error=0 exitcode=0" % racelog})
         fails3, _, _ = judge_histories(d, "TPPool", hist2, pid, shards=2, heap="3g")
         reproduced = {f[0] for f in fails3 if f[1] == pid}
         for scn_id, prop, clauses in fails:
@@ -145,7 +146,8 @@ def replay(bundle):
         log("recorded history violates %s: %s" % (pid, fails))
     hist = os.path.join(d, "replay_hist.ndjson")
     for attempt in range(5):
-        run_harness(binp, ["pool", "--out", hist, "--seed", str(attempt + 1), "-x", "replay=" + rp])
+        run_harness(binp, ["pool", "--out", hist, "--seed", str(attempt + 1), "-x", "replay=" + rp],
+                    env={"GORACE": "log_path=%s halt_on_error=0 exitcode=0" % os.path.join(d, "race")})
         fails2, _, _ = judge_histories(d, "TPPool", hist, pid, shards=1)
         if any(f[1] == pid for f in fails2):
             log("VIOLATION property=%s replay=%s (reproduced on re-execution %d: %s)" % (pid, bundle.get("_path", "?"), attempt + 1, fails2))
